@@ -127,6 +127,7 @@ def run(chk):
     class FakeConn(object):
         pass
     orders = 3 if chk.tier == 'quick' else 8
+    held = []           # reactors kept alive: several connections at different versions live in one process
     for t in tab:
         if not t['sup'] or t['dir'] != 'clientbound':
             continue
@@ -141,6 +142,7 @@ def run(chk):
         for k in range(orders):
             if k == 0:
                 reactor = rc(fc)
+                held.append((reactor, want, t))
             else:
                 order = list(cls_list)
                 rng.shuffle(order)
@@ -153,6 +155,16 @@ def run(chk):
                 chk.violation('reactor-dict:%s' % t['st'],
                               '%s dispatch dict at protocol %d differs from the id table: %r vs %r'
                               % (rc.__name__, t['v'], sorted(got.items())[:6], sorted(want.items())[:6]), {'entry': t})
+    # reactors built earlier still decode with their own version's table after all the others have been built
+    for reactor, want, t in held:
+        got = {i: c.__name__ for i, c in reactor.clientbound_packets.items()}
+        chk.evaluations += 1
+        if got != want:
+            diff = sorted(set(got.items()) ^ set(want.items()))[:4]
+            chk.violation('reactor-dict:live-reactors:%s' % t['st'],
+                          'a %s built for protocol %d decodes with another table once reactors for other versions exist: %r'
+                          % (type(reactor).__name__, t['v'], diff), {'entry': t})
+            break
         # known ids select exactly the class whose id it is (lookup)
     # ---- the same Connection / context re-used across versions (connect() re-assigns protocol_version on the
     #      long-lived context): the decoder table must follow the version in use, not an earlier one
